@@ -1,0 +1,67 @@
+//! Verification hooks (compiled only with `--cfg rre_verif`; never part of a normal build).
+//!
+//! * `yield_point()` — schedule point used to widen thread interleavings in stress runs.
+//! * `clock` — an injectable wall clock (milliseconds) for code that reads `SystemTime::now()`.
+//! * `crash` — fault injection for the checkpoint writer.
+use std::sync::atomic::{AtomicBool, AtomicI64, AtomicU64, Ordering};
+
+static YIELD_ENABLED: AtomicBool = AtomicBool::new(false);
+static YIELD_COUNTER: AtomicU64 = AtomicU64::new(0);
+
+/// Enable or disable perturbation at schedule points.
+pub fn set_yield(enabled: bool) {
+    YIELD_ENABLED.store(enabled, Ordering::SeqCst);
+}
+
+/// A schedule point: when enabled, yields (and occasionally sleeps) to perturb the interleaving.
+pub fn yield_point() {
+    if YIELD_ENABLED.load(Ordering::Relaxed) {
+        let n = YIELD_COUNTER.fetch_add(1, Ordering::Relaxed);
+        if n % 7 == 3 {
+            std::thread::sleep(std::time::Duration::from_micros(20));
+        } else {
+            std::thread::yield_now();
+        }
+    }
+}
+
+/// Injected clock in milliseconds; negative = use the real clock.
+static CLOCK_MS: AtomicI64 = AtomicI64::new(-1);
+
+/// Set the injected clock (milliseconds since the epoch); `None` restores the real clock.
+pub fn set_clock_ms(ms: Option<u64>) {
+    CLOCK_MS.store(ms.map(|m| m as i64).unwrap_or(-1), Ordering::SeqCst);
+}
+
+/// Current time in milliseconds: the injected clock if set, the real clock otherwise.
+pub fn now_ms() -> u64 {
+    let v = CLOCK_MS.load(Ordering::SeqCst);
+    if v >= 0 {
+        v as u64
+    } else {
+        std::time::SystemTime::now()
+            .duration_since(std::time::UNIX_EPOCH)
+            .unwrap_or(std::time::Duration::ZERO)
+            .as_millis() as u64
+    }
+}
+
+/// Fault injection for `StateStore::checkpoint`: crash (return early) after step `step`,
+/// writing only `nbytes` bytes of the file when the step is the write. `step < 0` = off.
+static CRASH_STEP: AtomicI64 = AtomicI64::new(-1);
+static CRASH_BYTES: AtomicU64 = AtomicU64::new(0);
+
+/// Arm the checkpoint fault injector.
+pub fn set_crash(step: i64, nbytes: u64) {
+    CRASH_STEP.store(step, Ordering::SeqCst);
+    CRASH_BYTES.store(nbytes, Ordering::SeqCst);
+}
+
+/// Returns `Some(nbytes)` when the checkpoint writer must stop after `step`.
+pub fn crash_at(step: i64) -> Option<u64> {
+    if CRASH_STEP.load(Ordering::SeqCst) == step {
+        Some(CRASH_BYTES.load(Ordering::SeqCst))
+    } else {
+        None
+    }
+}
